@@ -215,6 +215,13 @@ def protocol_facts():
     out.append(("walk_probes_build_lock_before_reading_rows", probed_before_rows))
     out.append(("cheat_refused_while_in_debt", cheat_guard))
     out.append(("job_pipe_made_before_token_destroyed", token_after_pipe))
+    # the slots of an own jobserver: two descriptors per running job, all below FD_SETSIZE (1024),
+    # with room for the descriptors a redo process holds anyway (pipes from 50 up, database, logs)
+    mm = read("src/bin/redo/main.rs")
+    m = re.search(r"const MAX_JOBS_ONE_PROCESS_CAN_SERVE: i32 = (\d+);", mm)
+    capped = bool(m and 2 * int(m.group(1)) + 100 <= 1024
+                  and re.search(r"let j = std::cmp::min\(j, MAX_JOBS_ONE_PROCESS_CAN_SERVE\);\s*let mut server = JobServer::setup\(j\)\?;", mm))
+    out.append(("own_jobserver_slots_fit_select", capped))
     return bmagic, out
 
 
